@@ -485,6 +485,55 @@ def rule_g_append_only_table(ctx, fns):
     return n
 
 
+def thorough(ctx):
+    """scan every translation unit that contains an OpenMP parallel construct (textual pre-filter only selects the
+    units; the regions are found in the AST) and report regions outside the frozen region list as not analysed"""
+    import os
+    from engine import compdb
+
+    cands = []
+    for u in compdb.all_units():
+        if any(x in u for x in ("/test/", "/experimental/", "/swig/", "_test", "/utilities/", "/recon_test/")):
+            continue
+        try:
+            txt = open(u, errors="ignore").read()
+        except OSError:
+            continue
+        if "pragma omp parallel" in txt.replace("#  pragma", "pragma").replace("# pragma", "pragma").replace("#pragma", "pragma"):
+            cands.append(u)
+    known = {os.path.join("/repo", x) for x in REGION_UNITS}
+    extra = [u for u in cands if u not in known]
+    ctx.stats["units_with_parallel_regions"] = len(cands)
+    ctx.stats["units_with_parallel_regions_not_in_scope"] = [u.replace("/repo/", "") for u in extra]
+    reqs = [Request(u, fn=["stir::.*"], config="openmp", files=[re.escape(u)]) for u in extra]
+    ctx.ex.prefetch(reqs)
+    class Collector:
+        """regions outside the property's anchors (e.g. KOSMAPOSL) are surveyed for information only: their writes are
+        listed in the evidence, they are not obligations of C18"""
+
+        def __init__(self):
+            self.items = []
+
+        def ob(self, rule, function, construct, ok, where="", detail="", **kw):
+            self.items.append((ok, "%s %s %s: %s" % (where, function, construct, detail)))
+
+    col = Collector()
+    n = 0
+    for r in reqs:
+        un = ctx.ex.get(r)
+        if un is None:
+            continue
+        for f in uniq(un.functions):
+            if f.body is None:
+                continue
+            for rg in [x for x in f.walk() if x.k == "OMP" and x.get("omp", "").startswith("parallel")]:
+                n += 1
+                analyse_scope(col, f, rg, rg, "C18.survey-", "region@%d" % rg.line)
+    ctx.stats["extra_regions_surveyed"] = n
+    ctx.stats["extra_regions_writes_recognised_safe"] = sum(1 for ok, _ in col.items if ok)
+    ctx.stats["extra_regions_writes_not_recognised (not obligations)"] = [t[:200] for ok, t in col.items if not ok]
+
+
 def run(ctx):
     ctx.explanation = (
         "OpenMP configuration of the sources (the baseline build has STIR_OPENMP=OFF, so no test executes this code). Decides: "
